@@ -21,6 +21,7 @@ import (
 	"strconv"
 	"strings"
 	"sync"
+	"sync/atomic"
 	"time"
 
 	"com.tuntun.rangers/node/src/storage/rlp"
@@ -31,7 +32,7 @@ func pickS(r *hx.Rng, xs ...string) string { return xs[r.Intn(len(xs))] }
 
 type searcher struct {
 	evals    int
-	distinct map[string]bool
+	distinct map[uint64]struct{} // hashes of distinct inputs, capped (the count saturates at distinctCap)
 	found    map[string]int
 	samples  []string
 }
@@ -103,6 +104,25 @@ func (s *searcher) sameValue(t *Ty, e []byte, v reflect.Value) bool {
 	return ok && showVal(v2) == showVal(v)
 }
 
+const distinctCap = 2000000
+
+// note counts a distinct (type, input) pair; only a 64-bit hash is kept and at most distinctCap of
+// them, so that the searcher's own memory stays bounded however long it runs.
+func (s *searcher) note(ts string, b []byte) {
+	if len(s.distinct) >= distinctCap {
+		return
+	}
+	var h uint64 = 1469598103934665603
+	for i := 0; i < len(ts); i++ {
+		h = (h ^ uint64(ts[i])) * 1099511628211
+	}
+	h = (h ^ 0xff) * 1099511628211
+	for _, c := range b {
+		h = (h ^ uint64(c)) * 1099511628211
+	}
+	s.distinct[h] = struct{}{}
+}
+
 // decode b into type t; ok=false on error. Panics are findings.
 func (s *searcher) decode(t *Ty, b []byte) (v reflect.Value, ok bool) {
 	s.evals++
@@ -112,6 +132,11 @@ func (s *searcher) decode(t *Ty, b []byte) (v reflect.Value, ok bool) {
 			ok = false
 		}
 	}()
+	if len(b) <= 64 {
+		defer inCall("dec " + t.String() + " " + hx.Hex(b))()
+	} else {
+		defer inCall("dec " + t.String() + " " + hx.Hex(b[:64]) + "…(" + strconv.Itoa(len(b)) + " bytes)")()
+	}
 	pv := reflect.New(goType(t))
 	if err := rlp.DecodeBytes(b, pv.Interface()); err != nil {
 		return reflect.Value{}, false
@@ -128,16 +153,14 @@ func (s *searcher) encode(v reflect.Value) (b []byte, ok bool) {
 	}()
 	p := reflect.New(v.Type())
 	p.Elem().Set(v)
+	defer inCall("enc " + v.Type().String())()
 	b, err := rlp.EncodeToBytes(p.Interface())
 	return b, err == nil
 }
 
 // canonical: if b is accepted for t, re-encoding must give b back.
 func (s *searcher) canonical(t *Ty, b []byte) {
-	key := t.String() + " " + hx.Hex(b)
-	if len(key) < 200 {
-		s.distinct[key] = true
-	}
+	s.note(t.String(), b)
 	v, ok := s.decode(t, b)
 	if !ok {
 		return
@@ -236,6 +259,7 @@ func (s *searcher) sessionOracle(line string) {
 	type exp struct{ enc []byte }
 	var got []string
 	ok := true
+	defer inCall(clip(line))()
 	res := hx.Guard(func() string {
 		for _, st := range steps {
 			r, k := ss.step(st)
@@ -431,7 +455,9 @@ func (s *searcher) historyOracle(r *hx.Rng, elem *Ty, n int) {
 		line := histOp(hx.NewRng(seed), o, elem, n) // same value for every order
 		s.evals++
 		w := strings.Fields(line)
+		done := inCall(clip(line))
 		got := hx.Guard(func() string { return runHist(w[1], w[2], w[3], w[4], w[5]) })
+		done()
 		if strings.HasPrefix(got, "PANIC") {
 			s.finding("history:panic", line, got)
 			return
@@ -527,7 +553,7 @@ func probeMain(a map[string]string) {
 // reports on stderr and makes the process exit non-zero). Evidence, not proof.
 func concMain(a map[string]string) {
 	r := hx.NewRng(hx.SeedFromEnv() ^ 0xc0c0)
-	s := &searcher{distinct: map[string]bool{}, found: map[string]int{}}
+	s := &searcher{distinct: map[uint64]struct{}{}, found: map[string]int{}}
 	n := hx.ArgInt(a, "rounds", 20)
 	for i := 0; i < n; i++ {
 		s.concurrentOracle(r)
@@ -539,7 +565,7 @@ func searchMain(a map[string]string) {
 	thorough := a["tier"] == "thorough"
 	noPtrRaw = true
 	r := hx.NewRng(hx.SeedFromEnv() ^ 0x5ea7c4)
-	s := &searcher{distinct: map[string]bool{}, found: map[string]int{}}
+	s := &searcher{distinct: map[uint64]struct{}{}, found: map[string]int{}}
 	deadline := time.Now().Add(20 * time.Second)
 	if thorough {
 		deadline = time.Now().Add(4 * time.Minute)
@@ -666,6 +692,9 @@ func searchMain(a map[string]string) {
 	}
 
 	// random structured search until the deadline
+	const tyPoolCap = 25000
+	var tyPool []*Ty
+	histCalls := 0
 	var tys []*Ty
 	for _, nt := range nodeTypes() {
 		for k := 0; k < 8; k++ {
@@ -675,13 +704,24 @@ func searchMain(a map[string]string) {
 	anyT, _ := tyOf("any")
 	bytesT, _ := tyOf("bytes")
 	round := 0
-	for time.Now().Before(deadline) {
+	// memory of this process grows with the number of rounds (every fresh reflect type and type-cache
+	// entry stays for good), so the random phase is bounded in rounds as well as in time
+	maxRounds := 60000
+	if thorough {
+		maxRounds = 100000
+	}
+	for time.Now().Before(deadline) && round < maxRounds {
 		round++
 		var t *Ty
 		if round <= len(tys) {
 			t = tys[round-1]
-		} else {
+		} else if len(tyPool) < tyPoolCap {
 			t = genTy(r, 3)
+			tyPool = append(tyPool, t)
+		} else {
+			// reflect types and rlp's type cache entries are never freed: once tyPoolCap distinct
+			// random types exist, keep drawing from them so the process stays bounded however long it runs
+			t = tyPool[r.Intn(len(tyPool))]
 		}
 		if s.found["hang:byte-array-1"] > 0 && hasByteArray1(t) {
 			continue // would loop forever in-process; already reported through the probe
@@ -731,7 +771,9 @@ func searchMain(a map[string]string) {
 			s.sessionOracle(genApiSession(r))
 			s.encodeSpec(randItem(r, 4, thorough))
 		}
-		if round%16 == 0 {
+		if round%64 == 0 && histCalls < 400 {
+			// every call creates fresh reflect types (never collected): sparse and capped
+			histCalls++
 			s.historyOracle(r, genTy(r, 1), r.Pick(0, 1, 2, 4))
 		}
 		if round%64 == 0 {
@@ -750,5 +792,6 @@ func searchMain(a map[string]string) {
 	if len(s.samples) == 0 {
 		s.samples = []string{"dec R2,a1,u64 c20005", "dec A3,a1 c100", "dec eth_tx.txdata c9808080c08080808080"}
 	}
-	fmt.Printf("SEARCH {\"evaluations\":%d,\"distinct\":%d,\"rounds\":%d}\n", s.evals, len(s.distinct), round)
+	fmt.Printf("SEARCH {\"evaluations\":%d,\"distinct\":%d,\"distinct_saturated\":%v,\"rounds\":%d,\"peak_heap_mb\":%d}\n",
+		s.evals, len(s.distinct), len(s.distinct) >= distinctCap, round, atomic.LoadUint64(&peakHeap)>>20)
 }
